@@ -5,6 +5,7 @@ package main
 import (
 	"verifharness/internal/hk"
 	_ "verifharness/props/c10"
+	_ "verifharness/props/c11"
 	_ "verifharness/props/c12"
 	_ "verifharness/props/c14"
 	_ "verifharness/props/c19"
